@@ -33,6 +33,7 @@ type task struct {
 	name      string
 	prio      uint64
 	parked    bool
+	spawnSeq  uint64 // creation number given by the creating goroutine (instrumented go statements), 0 = unknown
 }
 
 // Decision is one scheduling decision, kept for traces.
@@ -167,6 +168,15 @@ func (s *Sched) Gate(label string) {
 		s.passthrough++
 		return
 	}
+	if i := strings.IndexByte(label, '#'); i >= 0 {
+		// goroutine entry: "site#creation number"
+		var n uint64
+		for _, c := range label[i+1:] {
+			n = n*10 + uint64(c-'0')
+		}
+		t.spawnSeq = n
+		label = label[:i]
+	}
 	t.label = label
 	s.mu.Lock()
 	s.arrivals = append(s.arrivals, t)
@@ -197,6 +207,9 @@ func (s *Sched) collect() {
 		sort.SliceStable(fresh, func(i, j int) bool {
 			if fresh[i].label != fresh[j].label {
 				return fresh[i].label < fresh[j].label
+			}
+			if fresh[i].spawnSeq != fresh[j].spawnSeq {
+				return fresh[i].spawnSeq < fresh[j].spawnSeq
 			}
 			return fresh[i].goid < fresh[j].goid
 		})
